@@ -26,9 +26,16 @@ func workflowSkipCase(ctx context.Context, rep *mon.Reporter, rng *mon.Rand, cfg
 	// arrives after the skip); END takes b's whole output.
 	// early: b and c take their data from p, which finished long before a's branch decides (the value
 	// is already stored when the skip is reported); a only depends on p and takes its data from START.
-	early := rng.Bool()
+	// nodata: the branch targets take no data from anybody (zero-value input): the copy the engine makes
+	// for the selected target has no reader at all; a's value is consumed lazily by e.
+	variant := rng.Intn(3)
+	early := variant == 1
 	var spec *gspec.GraphSpec
-	if !early {
+	if variant == 2 {
+		spec = &gspec.GraphSpec{Mode: gspec.Workflow, Nodes: []gspec.NodeSpec{mk("p"), mk("a"), mk("b"), mk("c"), lazy("e")},
+			Edges: []gspec.EdgeSpec{{From: gspec.START, To: "p"}, {From: "p", To: "a", Fields: []string{"p"}},
+				{From: "a", To: "e"}, {From: "e", To: gspec.END, Fields: []string{"e.a"}}, {From: "b", To: gspec.END, Fields: []string{"b"}}}}
+	} else if !early {
 		spec = &gspec.GraphSpec{Mode: gspec.Workflow, Nodes: []gspec.NodeSpec{mk("p"), mk("a"), lazy("b"), lazy("c")},
 			Edges: []gspec.EdgeSpec{{From: gspec.START, To: "p"}, {From: "p", To: "a", Fields: []string{"p"}},
 				{From: "a", To: "b", NoControl: true}, {From: "a", To: "c", NoControl: true}, {From: "b", To: gspec.END}}}
